@@ -423,12 +423,16 @@ class Translator:
         elif op in ("alloc4", "alloc8", "alloc16"):
             al = int(op[5:])
             a = ins.args[0]
+            # The object is given exactly the alignment the IL asks for and no more (address = N mod 2N), so
+            # code that silently relies on a stricter alignment is exposed; it ends at the end of the C array, so
+            # ASan's red zone follows it directly.
             if bi == 0 and a.kind == "int" and 0 < a.v <= (1 << 20):
                 nalloc[0] += 1
-                decls.append("\t_Alignas(%d) unsigned char al_%d[%d];" % (al, nalloc[0], a.v))
-                e("\t%s = (uint64_t)(uintptr_t)al_%d;" % (res, nalloc[0]))
+                decls.append("\t_Alignas(%d) unsigned char al_%d[%d];" % (2 * al, nalloc[0], a.v + al))
+                e("\t%s = (uint64_t)(uintptr_t)(al_%d + %d);" % (res, nalloc[0], al))
             else:
-                e("\t%s = (uint64_t)(uintptr_t)__builtin_alloca_with_align(rt_allocsize(%s), %d);" % (res, V(0, "l"), al * 8))
+                e("\t%s = (uint64_t)(uintptr_t)((unsigned char *)__builtin_alloca_with_align(rt_allocsize(%s) + %d, %d) + %d);"
+                  % (res, V(0, "l"), al, 2 * al * 8, al))
         elif op == "vastart":
             if not f.variadic:
                 raise Unsupported("vastart in non-variadic function")
